@@ -280,6 +280,22 @@ fn op_json<const B: usize, const L: usize>(m: &mut Mon, limbs: &[u64]) {
         let r = m.must(|| serde_json::from_slice::<Uint<B, L>>(&text));
         decoded(m, "json.roundtrip", r, limbs);
     }
+    // as a member of a sequence, between other members
+    let r = m.must(|| serde_json::to_string(&(7u8, v, [v, v], "x")).map(String::into_bytes));
+    if let Some(text) = encoded(m, "json.framed.encode", r) {
+        let q = ref_quantity(limbs);
+        bytes_eq(m, "json.framed.text", &text, format!("[7,\"{q}\",[\"{q}\",\"{q}\"],\"x\"]").as_bytes());
+        match m.must(|| serde_json::from_slice::<(u8, Uint<B, L>, [Uint<B, L>; 2], String)>(&text)) {
+            Some(Ok((h, a, [b, c], t))) => {
+                m.eq_uint("json.framed.roundtrip", &a, limbs);
+                m.eq_uint("json.framed.roundtrip", &b, limbs);
+                m.eq_uint("json.framed.roundtrip", &c, limbs);
+                m.eq("json.framed.frame", &(h, t.as_str()), &(7, "x"));
+            }
+            Some(Err(e)) => m.fail("json.framed.roundtrip", "Ok", &format!("Err({e:?})")),
+            None => {}
+        }
+    }
     // through serde_json::Value
     match m.must(|| serde_json::to_value(v)) {
         Some(Ok(val)) => {
@@ -320,6 +336,24 @@ fn op_bincode<const B: usize, const L: usize>(m: &mut Mon, limbs: &[u64]) {
         // from a reader
         let r = m.must(|| bincode::deserialize_from::<_, Uint<B, L>>(&mut &bytes[..]));
         decoded(m, "bincode.reader.roundtrip", r, limbs);
+    }
+    // between other fields: exactly the same bytes, and decoding consumes exactly those
+    let r = m.must(|| bincode::serialize(&(0x5au8, v, v, 0xa5u8)));
+    if let Some(tb) = encoded(m, "bincode.framed.encode", r) {
+        let mut exp = vec![0x5au8];
+        exp.extend_from_slice(&want);
+        exp.extend_from_slice(&want);
+        exp.push(0xa5);
+        bytes_eq(m, "bincode.framed.bytes", &tb, &exp);
+        match m.must(|| bincode::deserialize::<(u8, Uint<B, L>, Uint<B, L>, u8)>(&tb)) {
+            Some(Ok((h, a, b, t))) => {
+                m.eq_uint("bincode.framed.roundtrip", &a, limbs);
+                m.eq_uint("bincode.framed.roundtrip", &b, limbs);
+                m.eq("bincode.framed.frame", &(h, t), &(0x5a, 0xa5));
+            }
+            Some(Err(e)) => m.fail("bincode.framed.roundtrip", "Ok", &format!("Err({e:?})")),
+            None => {}
+        }
     }
     let b = Bits::from(v);
     let r = m.must(|| bincode::serialize(&b));
@@ -430,6 +464,34 @@ macro_rules! rlp_like {
                 };
                 if let Some(b2) = exact {
                     bytes_eq(m, concat!($p, ".encode_into_exact"), &b2, &bytes);
+                }
+            }
+            // appended to a buffer that already has content, twice; decoded back one after the other
+            if let Some(b3) = must_k(m, concat!($p, ".append.panic"), || {
+                let mut out: Vec<u8> = vec![0x5a, 0xa5];
+                <Uint<B, L> as $krate::Encodable>::encode(&v, &mut out);
+                <Uint<B, L> as $krate::Encodable>::encode(&v, &mut out);
+                out.push(0x01);
+                out
+            }) {
+                let mut exp = vec![0x5a, 0xa5];
+                exp.extend_from_slice(&want);
+                exp.extend_from_slice(&want);
+                exp.push(0x01);
+                if bytes_eq(m, concat!($p, ".append"), &b3, &exp) {
+                    if let Some((r1, r2, rest)) = m.must(|| {
+                        let mut s = &b3[2..];
+                        let r1 = <Uint<B, L> as $krate::Decodable>::decode(&mut s);
+                        let r2 = <Uint<B, L> as $krate::Decodable>::decode(&mut s);
+                        (r1, r2, s.to_vec())
+                    }) {
+                        let ok = r1.is_ok() && r2.is_ok();
+                        decoded(m, concat!($p, ".sequence.roundtrip"), Some(r1), limbs);
+                        decoded(m, concat!($p, ".sequence.roundtrip"), Some(r2), limbs);
+                        if ok {
+                            m.eq(concat!($p, ".sequence.rest"), &rest, &vec![0x01u8]);
+                        }
+                    }
                 }
             }
             let max = <Uint<B, L> as $krate::MaxEncodedLenAssoc>::LEN;
@@ -1052,6 +1114,16 @@ fn op_postgres<const B: usize, const L: usize>(m: &mut Mon, limbs: &[u64]) {
         }
         okay.push(name);
         m.note_add(&format!("postgres.to_sql_ok.{name}"), 1);
+        // `to_sql` appends: a buffer that already holds another column keeps it, and the same bytes follow
+        if let Some(framed) = m.must(|| {
+            let mut out = bytes::BytesMut::from(&[0x5au8, 0xa5][..]);
+            let _ = <Uint<B, L> as ToSql>::to_sql(&v, &ty, &mut out);
+            out.to_vec()
+        }) {
+            let mut exp = vec![0x5au8, 0xa5];
+            exp.extend_from_slice(&raw);
+            bytes_eq(m, &format!("postgres.append.{name}"), &framed, &exp);
+        }
         let back = m.must(|| <Uint<B, L> as FromSql>::from_sql(&ty, &raw).map_err(|e| e.to_string()));
         if float {
             // lossy by nature: only "no panic" and canonical form
